@@ -97,6 +97,9 @@ impl<T: Extreme> Spec for XSpec<T> {
             let g = w.iter().fold(neutral::<T>(), |g, x| ghost_fold::<T>(g, *x));
             v.push(XState { e: guarded(|| T::collect_vals(w)), ghost: g });
             v.push(XState { e: guarded(|| T::collect_refs(w)), ghost: g });
+            // the same through iterators that report no useful size_hint
+            v.push(XState { e: guarded(|| T::collect_vals_opaque(w)), ghost: g });
+            v.push(XState { e: guarded(|| T::collect_refs_opaque(w)), ghost: g });
         }
         v
     }
